@@ -252,3 +252,34 @@ impl<T> VecExt for Vec<T> {
 pub fn cap(site: u32, operand: i64) {
     call(site, "cap", operand.canon());
 }
+
+/// Drives a future produced by `mk` on a fresh current-thread tokio runtime on its own OS thread, so that
+/// task-spawning async macros can be nested inside each other (a runtime cannot be entered from a runtime).
+pub fn on_tokio<T, Fut, F>(mk: F) -> T
+where
+    T: Send,
+    Fut: std::future::Future<Output = T>,
+    F: FnOnce() -> Fut + Send,
+{
+    std::thread::scope(|s| {
+        s.spawn(move || {
+            tokio::runtime::Builder::new_current_thread().build().unwrap().block_on(mk())
+        })
+        .join()
+        .unwrap()
+    })
+}
+
+/// Polls a future to completion on the spot.  Unlike `futures::executor::block_on` it has no "already inside an
+/// executor" guard, so async macros can be nested inside callbacks of other async macros.
+pub fn spin<F: std::future::Future>(f: F) -> F::Output {
+    let mut f = Box::pin(f);
+    let w = futures::task::noop_waker();
+    let mut cx = std::task::Context::from_waker(&w);
+    loop {
+        if let std::task::Poll::Ready(v) = f.as_mut().poll(&mut cx) {
+            return v;
+        }
+        std::thread::yield_now();
+    }
+}
